@@ -174,9 +174,13 @@ struct ApplyMagnitudeImpl<Mag, ApplyAs::RATIONAL_MULTIPLY, T, true> {
     }
 
     static constexpr bool would_truncate(const T &x) {
-        constexpr auto mag_value_result = get_value_result<T>(denominator(Mag{}));
-        return TruncationChecker<T, mag_value_result.outcome == MagRepresentationOutcome::OK>::
-            would_truncate(x, mag_value_result.value);
+        // Do the check in the promoted type, because that is where `operator()` does the division.
+        // (Otherwise, a denominator that fits in `P` but not in `T` would make us report truncation
+        // for `x == lowest()` even when `x` is an exact multiple of the denominator.)
+        using P = PromotedType<T>;
+        constexpr auto mag_value_result = get_value_result<P>(denominator(Mag{}));
+        return TruncationChecker<P, mag_value_result.outcome == MagRepresentationOutcome::OK>::
+            would_truncate(static_cast<P>(x), mag_value_result.value);
     }
 };
 
